@@ -275,6 +275,22 @@ Fixpoint list_eqb5 (l1 l2 : list (string * string * string * string * string)) :
   | _, _ => false
   end.
 
+(* the key of _sort_indices / _sum_duplicates: linear_loc returns np.ravel_multi_index(coords, shape) — an intp
+   (signed, wide) array whatever the coordinate dtype — except for the 0-d case (zeros of intp) *)
+Definition linear_loc_expected : list (string * string * string) := [
+  ("linear_loc", "shape == () and len(coords) == 0", "np.zeros(coords.shape[1:], dtype=np.intp)");
+  ("linear_loc", "", "np.ravel_multi_index(coords, shape)");
+  ("COO.linear_loc", "", "linear_loc(self.coords, self.shape)")
+].
+
+Fixpoint list_eqb3 (l1 l2 : list (string * string * string)) : bool :=
+  match l1, l2 with
+  | [], [] => true
+  | (a1, a2, a3) :: r1, (b1, b2, b3) :: r2 =>
+    String.eqb a1 b1 && String.eqb a2 b2 && String.eqb a3 b3 && list_eqb3 r1 r2
+  | _, _ => false
+  end.
+
 (* COO._reduce_return prunes through the constructor (prune=True) *)
 Definition coo_reduce_return_prunes (sites : list site) : bool :=
   existsb (fun s => String.eqb (s_func s) "COO._reduce_return" && flagv_eqb (s_prune s) FTrue) sites.
@@ -286,6 +302,14 @@ Definition prune_by {V} (keep : V -> bool) (data : list V) : list V := filter ke
 
 (* IEEE `!=` on value tokens, with `nan` the token of NaN: NaN != anything, itself included *)
 Definition ieee_neq (nan : Z) (a b : Z) : bool := (a =? nan) || (b =? nan) || negb (a =? b).
+
+(* `(np.diff(linear) >= 0).all()` evaluated in an UNSIGNED w-bit type (what the test would be if the key kept
+   an unsigned coordinate dtype): differences wrap, so the test accepts everything *)
+Fixpoint nondec_wrapped (w : Z) (l : list Z) : bool :=
+  match l with
+  | [] => true
+  | a :: r => match r with [] => true | b :: _ => (0 <=? (b - a) mod 2 ^ w) && nondec_wrapped w r end
+  end.
 
 (* ------------------------------------------------------------------ the constructor *)
 
